@@ -460,3 +460,76 @@ func (st *State) coverCond(label string, c *Term) {
 		st.eng.noteCover(label, h)
 	}
 }
+
+// ---------- heap reachability (C10) ----------
+
+// reachObjects collects the mutable heap objects reachable from v.
+func (st *State) reachObjects(v Value, seen map[int]bool, maps map[int]bool) {
+	switch x := v.(type) {
+	case Ptr:
+		if x.Obj == nil || x.Obj.Frozen || seen[x.Obj.ID] {
+			return
+		}
+		seen[x.Obj.ID] = true
+		st.reachObjects(x.Obj.V, seen, maps)
+	case SliceV:
+		if x.Arr.Obj == nil || seen[x.Arr.Obj.ID] {
+			return
+		}
+		if x.Len.IsConst() && x.Len.Val == 0 && x.Cap.IsConst() && x.Cap.Val == 0 {
+			return
+		}
+		seen[x.Arr.Obj.ID] = true
+		st.reachObjects(x.Arr.Obj.V, seen, maps)
+	case *StructV:
+		for _, f := range x.F {
+			st.reachObjects(f, seen, maps)
+		}
+	case *ArrayV:
+		for _, e := range x.E {
+			if e != nil {
+				st.reachObjects(e, seen, maps)
+			}
+		}
+	case IfaceV:
+		if x.T != nil {
+			st.reachObjects(x.V, seen, maps)
+		}
+	case MapV:
+		if x.M != nil && !maps[x.M.ID] {
+			maps[x.M.ID] = true
+			for _, e := range x.M.Entries {
+				st.reachObjects(e.K, seen, maps)
+				st.reachObjects(e.V, seen, maps)
+			}
+		}
+	case FuncV:
+		for _, e := range x.Env {
+			st.reachObjects(e, seen, maps)
+		}
+	case TupleV:
+		for _, e := range x {
+			st.reachObjects(e, seen, maps)
+		}
+	}
+}
+
+func init() {
+	vrtPrims["vrtDisjoint"] = simple(func(st *State, args []Value) Value {
+		a, am := map[int]bool{}, map[int]bool{}
+		b, bm := map[int]bool{}, map[int]bool{}
+		st.reachObjects(args[0], a, am)
+		st.reachObjects(args[1], b, bm)
+		for id := range a {
+			if b[id] {
+				return st.tt.False
+			}
+		}
+		for id := range am {
+			if bm[id] {
+				return st.tt.False
+			}
+		}
+		return st.tt.True
+	})
+}
